@@ -37,6 +37,13 @@ def classify_line(raw: str):
 
 
 def judge_listing(ctx, ws, text, origin, force_history=False):
+    with ctx.ambient_log():
+        if ctx.last_log_level != "warning":
+            origin = origin + f" [logger at {ctx.last_log_level}]"
+        return _judge_listing(ctx, ws, text, origin, force_history)
+
+
+def _judge_listing(ctx, ws, text, origin, force_history=False):
     p = ws.write("in.s", text)
     REC.clear()
     r = objd.real_stream(ws, p)
